@@ -1,18 +1,18 @@
 SPECIFICATION Spec
 CONSTANTS
-  Kinds <- KindsFew
+  Kinds <- KindsTriple
   CleanupIds = {"c1"}
-  DetailNames <- NamesAll
-  Mismatches = {"m0", "m1", "m2"}
-  Attrs = {"a_exist", "a_missing", "a_none"}
-  Fixtures = {"f_ok", "f_tb", "f_two", "f_bad", "f_cr"}
-  MaxFaults = 1
-  MaxSteps = 3
-  MaxTotalSteps = 3
+  DetailNames <- NamesNone
+  Mismatches = {}
+  Attrs = {}
+  Fixtures = {}
+  MaxFaults = 3
+  MaxSteps = 1
+  MaxTotalSteps = 1
   MaxRuns = 1
   AllowDecor = FALSE
-  OnExcChoices = {TRUE, FALSE}
-  StepOps = {"upcall", "addCleanup", "addDetail", "expect", "patch", "useFixture"}
+  OnExcChoices = {FALSE}
+  StepOps = {"addCleanup"}
   AllowMulti = FALSE
   Variant = "asRequired"
   UndoOf <- MCUndoOf
